@@ -87,7 +87,7 @@ func StdScenario(idx int, r *rand.Rand, blocks int) Scenario {
 	case 9:
 		sc.Family = "crowded"
 		sc.Spec.Validators = 8
-		sc.Spec.ExtraCands = 6
+		sc.Spec.ExtraCands = 91 // 99 candidates: declarations push the set over the 100-candidate limit
 		sc.Spec.Users = 20
 	}
 	return sc
